@@ -291,7 +291,7 @@ class InstallStream(Stream):
                 q.clist(q.cpair(q.cnat(j), q.cnat(s)) for j, s in L["named"]),
                 q.copt(L["flat"], q.cnat), q.copt(L["source"], q.cnat))
             items.append(q.ctuple(self._cop(op, oi + 1), q.cnat(OUT[st["out"]]), lst))
-        return q.clist(items)
+        return f"({q.clist(items)} : Install.case)"
 
     # ---- oracle ---------------------------------------------------------
     def oracle(self, c, r):
